@@ -2,9 +2,11 @@
 # usage: tools/runall.sh quick|thorough   — runs every registered check, prints one line each
 cd "$(dirname "$0")/.."
 tier=${1:-quick}
-for id in $(python3 -c "import json;print(' '.join(c['property_id'] for c in json.load(open('MANIFEST.json'))['checks']))"); do
+for id in ${CHECKS:-$(python3 -c "import json;print(' '.join(c['property_id'] for c in json.load(open('MANIFEST.json'))['checks']))")}; do
   start=$(date +%s)
   out=$(./check $id --tier $tier 2>&1); rc=$?
   end=$(date +%s)
+  # keep a copy of what the deep tier covered (evidence/<id>.json itself is rewritten by every run)
+  if [ "$tier" = "thorough" ] && [ $rc -eq 0 ]; then mkdir -p evidence_thorough; cp evidence/$id.json evidence_thorough/$id.json; fi
   echo "$id rc=$rc $((end-start))s $(echo "$out" | grep -c '^VIOLATION') violations $(echo "$out" | grep -c '^KNOWN-FINDING') known :: $(echo "$out" | tail -1 | cut -c1-150)"
 done
